@@ -12,7 +12,10 @@ from vlib.common import build_harness, build_tool, run_tool, workdir, MachineryE
 BACKENDS = ["js", "dart", "kotlin", "nanobind"]
 # 'static slices are outside the js/dart profiles; Kotlin has no Option<struct> support and crashes on any Option<&[T]> parameter (C15 finding)
 EXCLUDED_PARAMS = {"&'static Op", "&'static str"}
-EXCLUDED_FOR = {"kotlin": {"Option<&'x [u8]>", "Option<SB<'x>>"}}
+EXCLUDED_FOR = {"kotlin": {"Option<&'x [u8]>", "Option<SB<'x>>", "Option<SSl<'x>>"}}
+# struct parameter forms whose definition lifetimes hold slice fields: Dart / JS must hand the edge arrays of every return lifetime
+# that may borrow through that slot to the struct conversion (append arrays), which attaches the slice arena to them
+SLICE_SLOTS = {"SSl<'x>": {"a"}, "Option<SSl<'x>>": {"a"}, "SSl2<'x,'y>": {"a", "b"}}
 # returned slices/strings are copied into host values by some backends (Kotlin arrays/Strings, nanobind std::string): the
 # returned value then borrows nothing, so no edge is required; these return forms are judged in the in-process half only
 # JS panics on any Result whose error type is a primitive (converter.rs `e.id().unwrap()`): reported by C15, kept out of this module
@@ -150,12 +153,65 @@ def _return_uses(body, backend):
     return used
 
 
+def _append_arrays(body, backend):
+    """{param: {def_lt: set(edge array names)}} from the struct conversions in the call expression"""
+    out = {}
+    if backend == "js":
+        pats = [r"internalConstructor, (p\d+)\)\._intoFFI\(functionCleanupArena, \{([^}]*)\}",
+                r"optionToArgsForCalling\((p\d+), .*?_writeToArrayBuffer\(arrayBuffer, offset \+ 0, functionCleanupArena, \{([^}]*)\}"]
+    else:
+        pats = [r"(p\d+)\._toFfi\(temp\.arena((?:, \w+AppendArray: \[[^\]]*\])*)\)"]
+    for pat in pats:
+        for m in re.finditer(pat, body):
+            d = out.setdefault(m.group(1), {})
+            for a in re.finditer(r"(\w)AppendArray: \[([^\]]*)\]", m.group(2)):
+                names = set()
+                for e in a.group(2).split(","):
+                    e = e.strip()
+                    if not e:
+                        continue
+                    mm = re.fullmatch(r"(\w+)Edges", e)
+                    if not mm:
+                        raise Undecided("cannot interpret append array element %r" % e)
+                    names.add(mm.group(1))
+                d[a.group(1)] = names
+    return out
+
+
+def _judge_append(s, body, backend):
+    """Dart / JS: for a struct parameter with slice fields in definition lifetime d, dAppendArray must list the edge arrays of exactly
+    the return lifetimes that may borrow through that slot (fewer: the slice arena is freed too early; more: only a leak, not judged)"""
+    probs = []
+    exp = s.expected_edges()
+    got = None
+    for i, (f, l) in enumerate(s.params):
+        slots = SLICE_SLOTS.get(f.name)
+        if not slots:
+            continue
+        pn = "p%d" % i
+        for d in sorted(slots):
+            want = {r for r, es in exp.items() if (pn, "struct", d) in es}
+            if not want:
+                continue
+            if got is None:
+                got = _append_arrays(body, backend)
+            if pn not in got:
+                raise Undecided("%s: conversion of struct parameter %s not found in %r" % (backend, pn, body[:300]))
+            have = got[pn].get(d, set())
+            if want - have:
+                probs.append(("append-array", "struct parameter %s, slot '%s: append array lists %s, return lifetimes borrowing through it: %s" % (
+                    pn, d, sorted(have), sorted(want))))
+    return probs
+
+
 def _judge_method(s, body, backend):
     """returns list of (class, detail)"""
     exp = s.expected_edges()
     probs = []
     if backend == "nanobind":
         return probs
+    if backend in ("js", "dart"):
+        probs += _judge_append(s, body, backend)
     # which part of the body / which array names carry lifetime r
     ret_ref_lt = None
     if s.ret.name in ("&'r Op", "Option<&'r Op>", "&'r OpL<'s>", "Result<&'r Op, ()>"):
